@@ -57,3 +57,183 @@ PROPS = {
 }
 
 NOT_YET = {}
+
+# ---------------------------------------------------------------------------
+# C01-C03: the Push VM
+import os, subprocess, json as _json
+_ROOT = os.path.dirname(os.path.dirname(os.path.abspath(__file__)))
+_VH = os.path.join(_ROOT, 'work', 'target', 'debug', 'vh')
+
+def _parse_tokens(flat):
+    toks, i = [], 0
+    while i + 1 < len(flat):
+        toks.append((flat[i], flat[i + 1])); i += 2
+    return toks
+
+def render_floats(bits_set, tag='x'):
+    """Rust std's own `{}` for f64 — the text oracle (DESIGN §3.2)"""
+    if not bits_set:
+        return {}
+    wd = os.path.join(_ROOT, 'work')
+    bits = sorted(bits_set)
+    inp = os.path.join(wd, 'render_%s_%d.in' % (tag, os.getpid())); outp = inp[:-3] + '.out'
+    with open(inp, 'w') as f:
+        f.write('\n'.join(map(str, bits)) + '\n')
+    subprocess.run([_VH, 'render', inp, outp], check=True, timeout=300)
+    res = dict(zip(bits, open(outp).read().split('\n')))
+    os.remove(inp); os.remove(outp)
+    return res
+
+def push_post_batch(inputs, obs, verdicts):
+    """the model's output tokens rendered to bytes must equal the bytes the real state printed"""
+    need = set()
+    for v in verdicts:
+        if v and v[0] in (0, 1):
+            for k, x in _parse_tokens(v[1:]):
+                if k == 2:
+                    need.add(x)
+    table = render_floats(need, 'push')
+    for i, v in enumerate(verdicts):
+        if not v or v[0] not in (0, 1):
+            continue
+        o = obs[i]
+        if not (isinstance(o, list) and len(o) >= 2 and isinstance(o[1], list) and len(o[1]) == 10):
+            continue
+        strings = inputs[i][1]
+        exp = bytearray()
+        for k, x in _parse_tokens(v[1:]):
+            if k == 1: exp += str(x).encode()
+            elif k == 2: exp += table[x].encode()
+            elif k == 3: exp += b'true' if x else b'false'
+            elif k == 4: exp += bytes(strings[x])
+            elif k == 5: exp += chr(x).encode()
+        if list(exp) != o[1][8]:
+            verdicts[i] = [2, 'output', bytes(exp).decode(errors='replace'), bytes(o[1][8]).decode(errors='replace')]
+
+INSTR_NAMES = {0: 'Pop', 1: 'Dup', 2: 'Swap', 3: 'IsEmpty', 4: 'StackDepth', 5: 'Flush', 6: 'PushInt', 7: 'PushFloat', 8: 'PushBool', 9: 'PushExec',
+               10: 'Print', 11: ['Inc', 'Dec', 'Square'], 12: ['Negate', 'Abs'], 13: ['Add', 'Subtract', 'Multiply', 'ProtectedDivide', 'Mod', 'Power'],
+               14: ['Min', 'Max'], 15: 'Clamp', 16: ['IsZero', 'IsPositive', 'IsNegative', 'IsEven', 'IsOdd'],
+               17: ['Equal', 'NotEqual', 'LessThan', 'LessThanEqual', 'GreaterThan', 'GreaterThanEqual'], 18: 'FromBoolean', 19: 'FromFloatApprox',
+               20: ['FAdd', 'FSubtract', 'FMultiply', 'FProtectedDivide'], 21: ['FEqual', 'FNotEqual', 'FLessThan', 'FLessThanOrEqual', 'FGreaterThan', 'FGreaterThanOrEqual'],
+               22: 'FromIntApprox', 23: 'Not', 24: ['And', 'Or', 'Xor', 'Implies'], 25: 'BoolFromInt', 26: 'Noop', 27: 'DupBlock', 28: 'When', 29: 'Unless', 30: 'IfElse',
+               31: 'InputVar', 32: 'PrintSpace', 33: 'PrintNewline', 34: 'PrintPeriod', 35: 'PrintString', 100: 'Block'}
+KNAMES = ['Int', 'Float', 'Bool', 'Exec']
+
+def instr_name(t):
+    if not isinstance(t, list) or not t:
+        return '?'
+    tag = t[0]
+    n = INSTR_NAMES.get(tag, '?%s' % tag)
+    if tag == 100:
+        return '[' + ' '.join(instr_name(c) for c in t[1:]) + ']'
+    if isinstance(n, list):
+        return n[t[1]] if len(t) > 1 and 0 <= t[1] < len(n) else '?'
+    if tag <= 5:
+        return '%s%s' % (KNAMES[t[1]], n)
+    if tag == 10:
+        return '%sPrint%s' % (KNAMES[t[1]], 'Ln' if t[2] else '')
+    if tag == 7:
+        import struct
+        return 'PushFloat(%r)' % struct.unpack('>d', struct.pack('>Q', t[1]))[0]
+    if tag == 9:
+        return 'PushExec(%s)' % instr_name(t[1])
+    if len(t) > 1:
+        return '%s(%s)' % (n, t[1])
+    return n
+
+def push_describe(inp, obs):
+    st = inp[2]
+    d = 'exec(cap %d)=[%s] int(cap %d)=%s float(cap %d)=%s bool(cap %d)=%s inputs=%s step_limit=%d' % (
+        st[0], ' '.join(instr_name(p) for p in st[1]), st[2], st[3], st[4], st[5], st[6], st[7], st[8], st[9])
+    if inp[0] == 1:
+        return 'perform %s on state {%s}; stacks are top first' % (instr_name(inp[3]), d)
+    return 'run_to_completion of state {%s}; stacks are top first' % d
+
+def _walk_instrs(t, acc):
+    if isinstance(t, list) and t and isinstance(t[0], int):
+        if t[0] == 100:
+            for c in t[1:]:
+                _walk_instrs(c, acc)
+        else:
+            acc.append(t)
+            if t[0] == 9:
+                _walk_instrs(t[1], acc)
+
+def push_bucket(inp, obs):
+    out = ['mode=%s' % ('run' if inp[0] == 0 else 'perform')]
+    cls = obs[0] if isinstance(obs, list) and obs else None
+    out.append('outcome=%s' % {0: 'ok', 1: 'recoverable', 2: 'fatal', -1: 'panic', -2: 'abort', -3: 'hang'}.get(cls, cls))
+    if inp[0] == 1:
+        kind = obs[2] if isinstance(obs, list) and len(obs) > 2 else 0
+        out.append('%s:%s' % (instr_name(inp[3]).split('(')[0] if inp[3][0] != 100 else 'Block',
+                              {0: 'ok', 1: 'underflow', 2: 'overflow', 3: 'int-overflow'}.get(kind, kind)))
+    else:
+        out.append('program_len=%d' % (len(inp[2][1]) // 10 * 10))
+    return out
+
+def push_nontrivial(inp, obs):
+    # single step: anything but a no-operand success is informative; run: the program executed at least 3 elements
+    if not isinstance(obs, list) or not obs:
+        return False
+    if inp[0] == 1:
+        return True
+    return len(inp[2][1]) >= 3 and inp[2][9] >= 3
+
+def push_classify(inp, obs):
+    if isinstance(obs, list) and obs and obs[0] in (-2, -3):
+        return 'abort-or-hang'
+    if inp[0] == 1:
+        return 'perform:' + instr_name(inp[3]).split('(')[0]
+    acc = []
+    for p in inp[2][1]:
+        _walk_instrs(p, acc)
+    return 'run'
+
+def push_cov_extra(inputs, obs, verdicts):
+    per = {}
+    for i, v in enumerate(verdicts):
+        if v is None or inputs[i][0] != 1:
+            continue
+        n = instr_name(inputs[i][3]).split('(')[0]
+        ok = isinstance(obs[i], list) and obs[i] and obs[i][0] == 0
+        a = per.setdefault(n, [0, 0]); a[0] += 1; a[1] += 1 if ok else 0
+    executed = sum(a[0] for a in per.values()); succ = sum(a[1] for a in per.values())
+    return dict(single_step_success_rate=round(succ / executed, 3) if executed else None,
+                instructions_never_successful=sorted(n for n, a in per.items() if a[1] == 0))
+
+_PUSH_COMMON = dict(corr='CorrPush', show='(show_cases show [])', post_batch=push_post_batch, describe=push_describe,
+                    bucket=push_bucket, nontrivial=push_nontrivial, classify=push_classify, cov_extra=push_cov_extra)
+
+PROPS['C01'] = dict(_PUSH_COMMON,
+    judge='(judge_cases judge_c01)',
+    coq_targets=['theories/Props/C01.vo', 'theories/Corr/CorrPush.vo'],
+    rule='(a) every non-literal instruction applied (Instruction::perform) to states whose operand positions run over boundary value lists (23 i64 values incl. MIN/MAX/2^32/sqrt boundaries; 22 f64 bit patterns incl. NaNs, infinities, signed zeros, subnormal, 2^53+1, i64 range edges): sampled pairs in the quick tier, all pairs in the thorough tier; (b) literals/blocks/input variables as single steps; (c) random nested programs (5-45 elements, nested blocks and exec literals to depth 5, bound input variables, random initial stacks, capacities from exactly-full upwards, step limits 0-150/400) through State::run_to_completion. All four stacks, capacities, printed bytes and the outcome class/error kind are compared with Spec/Run evaluated in coqc. Non-trivial: every single-step case; a run whose program has >= 3 elements and step limit >= 3. Distinct = distinct inputs.',
+    trusted=['Rust std f64 Display as the float-to-text oracle (second harness pass)', 'primitive floats of the Coq kernel (hardware binary64) for float instructions'],
+    assumptions=['when an operand is missing AND the destination is full either report is accepted (run_alts)', 'PrintString contents limited to the case string table'],
+    level_text='Theorems (Props/C01.v) over the executable semantics table Spec.v and the interpreter Run.v: per-clause theorems for ALL operand values (top-op-second arithmetic, /0 -> 1, %0 -> 0, overflow skips, saturating negate/abs, mathematical predicates that consume all operands incl. parity of negatives, conditional action tables, block unfolding order, checked_pow = mathematical power with range test). The real PushState is tied to the table by differential execution of every instruction on boundary values and of random nested programs, judged inside coqc.',
+    level_note='Trusted: Coq kernel incl. primitive floats; harness+driver; Rust std float Display. Dual-fault report order left open (both accepted).',
+    technique='Coq theorems over an executable Push semantics + differential correspondence (every instruction x boundary values, random programs) evaluated in coqc',
+    design_ref='DESIGN.md §4 C01, Appendix A',
+)
+PROPS['C02'] = dict(_PUSH_COMMON,
+    judge='(judge_cases judge_c02)',
+    coq_targets=['theories/Props/C02.vo', 'theories/Corr/CorrPush.vo'],
+    rule='fault-point lattice: every instruction (plus literals, input variables, blocks) x sizes 0..4 of each stack x capacity slack 0..2 (sampled in quick, full grid of sizes x slack{0,1} in thorough), boundary values at the fault points, and sparse-operand programs run to completion. For an error the harness compares the state carried by the error with a clone of the input (PushState ==) and field-wise. Non-trivial: all single-step cases; distinct inputs.',
+    trusted=['PushState::eq (derived) for the whole-state comparison, cross-checked field-wise'],
+    assumptions=['wf (every stack within its capacity) — an invariant of reachable states proved in C03/C19'],
+    level_text='Theorems (Props/C02.v): for every instruction and every well-formed state, an error outcome carries exactly the input state (record equality: all stacks, capacities, output, inputs, limits), recoverable errors are exactly operand/arithmetic faults and fatal ones overflows, and the interpreter after a recoverable error equals the interpreter on a no-op. Tied to the code on the fault-point lattice through Instruction::perform.',
+    level_note='Trusted: as C01. Hypothesis wf is discharged by C03_wf_invariant.',
+    technique='Coq proof by case analysis over the instruction table (error => state unchanged) + fault-point lattice correspondence',
+    design_ref='DESIGN.md §4 C02',
+)
+PROPS['C03'] = dict(_PUSH_COMMON,
+    judge='(judge_cases judge_c03)',
+    coq_targets=['theories/Props/C03.vo', 'theories/Corr/CorrPush.vo'],
+    rule='self-replicating and exponentially growing programs (DupBlock / exec Dup / exec literals) x step limits 0..39 (119 thorough) x capacities 0,1,2,3,5,8,30; loop-heavy random programs, some with every limit 0..11; nesting depth 10..1000; an unbound input variable (expected panic). Each run under a process watchdog. Non-trivial: program >= 3 elements and limit >= 3.',
+    trusted=['process-level watchdog of the driver for hangs/aborts'],
+    assumptions=['native stack exhaustion at nesting depth of several thousand is outside the model (known finding D7)'],
+    level_text='Theorems (Props/C03.v): evaluation is total by construction (structural recursion on a binary step budget proved equal to the while loop), takes at most max_steps steps, keeps every stack within its capacity at every step (wf is an inductive invariant), a fatal error is always an overflow of a destination that lacks room, underflow/arithmetic faults are never fatal, and no panic occurs when every mentioned input is bound. Tied to the code by limit sweeps over looping programs.',
+    level_note='Trusted: as C01; native stack exhaustion not modelled (D7 known finding).',
+    technique='Coq invariant proofs over the interpreter loop (step bound, capacity invariant, fatal=>overflow) + limit-sweep correspondence under a watchdog',
+    design_ref='DESIGN.md §4 C03',
+)
